@@ -357,3 +357,75 @@ Proof.
     destruct ss as [|s ss]; [congruence|]. cbn [length Nat.add Nat.eqb].
     rewrite rd_bytes_at by (rewrite app_length; lia). cbn [bind rev]. reflexivity.
 Qed.
+
+(* ---------- one RR ---------- *)
+Lemma rr_em_read fs owner ty cl ttl rd oc rc file t em t' :
+  TableSound file t -> name_ok owner -> Forall piece_ok rd -> shaped fs rd ->
+  rr_em owner ty cl ttl rd None None oc rc (zlen file) t = Ok (em, t') ->
+  TableSound (file ++ em) t' /\
+  0 <= ty <= 65535 /\ 0 <= cl <= 65535 /\ 0 <= ttl <= 4294967295 /\
+  exists owner' rd' (c1 rdl : nat),
+    ci_equal owner' owner /\ name_ok owner' /\ rdata_ci rd' rd /\ Forall piece_ok rd' /\ shaped fs rd' /\
+    (c1 + 10 + rdl = length (file ++ em))%nat /\ (length file < c1)%nat /\ Z.of_nat rdl <= 65535 /\
+    forall ext,
+      rr_head ((file ++ em) ++ ext) None (length file)
+        = Ok (owner', owner', c1, ty, cl, ttl, Z.of_nat rdl) /\
+      forall acc, dec_fields ((file ++ em) ++ ext) fs None (length (file ++ em)) (c1 + 10) acc
+                  = Ok (rev acc ++ rd', length (file ++ em)).
+Proof.
+  intros TS NO PO S H. unfold rr_em in H.
+  apply bind_ok in H. destruct H as ([e1 t1] & H1 & H).
+  apply bind_ok in H. destruct H as (h1 & E1 & H). apply bind_ok in H. destruct H as (h2 & E2 & H).
+  apply bind_ok in H. destruct H as (h3 & E3 & H). apply bind_ok in H. destruct H as ([e2 t2] & H2 & H).
+  cbn [fst snd] in *. destruct (Z.gtb_spec (zlen e2) 65535) as [|Hlen]; [discriminate|].
+  remember (MessageM.u16 (zlen e2)) as h4 eqn:E4.
+  injection H as <- <-.
+  apply pack16_ok in E1, E2. apply pack32_ok in E3. destruct E1 as (-> & R1). destruct E2 as (-> & R2). destruct E3 as (-> & R3).
+  subst h4.
+  destruct (nm_em_sound _ _ _ _ _ _ TS NO H1) as (TS1 & owner' & CI1 & NO1 & D1).
+  set (hdr := MessageM.u16 ty ++ MessageM.u16 cl ++ MessageM.u32 ttl ++ MessageM.u16 (zlen e2)).
+  assert (Hh : length hdr = 10%nat) by reflexivity.
+  set (file1 := (file ++ e1) ++ hdr).
+  assert (Hpos : zlen file + zlen e1 + 10 = zlen file1).
+  { unfold file1. rewrite !zlen_app'. unfold zlen at 5. rewrite Hh. lia. }
+  rewrite Hpos in H2.
+  destruct (rd_em_read fs rd S rc file1 t1 e2 t2 (TableSound_app _ _ _ TS1) PO H2) as (TS2 & rd' & CI2 & PO2 & S2 & RD).
+  assert (Eq : file ++ e1 ++ MessageM.u16 ty ++ MessageM.u16 cl ++ MessageM.u32 ttl ++ MessageM.u16 (zlen e2) ++ e2 = file1 ++ e2).
+  { unfold file1, hdr. rewrite <- !app_assoc. reflexivity. }
+  rewrite Eq. split; [exact TS2|]. split; [exact R1|]. split; [exact R2|]. split; [exact R3|].
+  exists owner', rd', (length (file ++ e1)), (length e2).
+  split; [exact CI1|]. split; [exact NO1|]. split; [exact CI2|]. split; [exact PO2|]. split; [exact S2|].
+  pose proof (Dec_bounds _ _ _ _ _ D1) as (B1 & B2 & B3).
+  split; [unfold file1; rewrite !app_length; lia|]. split; [lia|]. split; [unfold zlen in Hlen; lia|].
+  intros ext. split.
+  - unfold rr_head.
+    replace ((file1 ++ e2) ++ ext) with ((file ++ e1) ++ (hdr ++ e2 ++ ext)) by (unfold file1; rewrite <- !app_assoc; reflexivity).
+    rewrite (nm_read file e1 _ _ owner' NO1 D1) by (rewrite !app_length; lia). cbn [bind fst snd].
+    set (endp := length ((file ++ e1) ++ hdr ++ e2 ++ ext)).
+    assert (He : (length (file ++ e1) + 10 <= endp)%nat) by (unfold endp; rewrite !app_length; lia).
+    replace ((file ++ e1) ++ hdr ++ e2 ++ ext)
+      with ((file ++ e1) ++ MessageM.u16 ty ++ (MessageM.u16 cl ++ MessageM.u32 ttl ++ MessageM.u16 (zlen e2) ++ e2 ++ ext))
+      by (unfold hdr; rewrite <- !app_assoc; reflexivity).
+    rewrite rd_u16_at by (try lia). cbn [bind].
+    replace ((file ++ e1) ++ MessageM.u16 ty ++ MessageM.u16 cl ++ MessageM.u32 ttl ++ MessageM.u16 (zlen e2) ++ e2 ++ ext)
+      with (((file ++ e1) ++ MessageM.u16 ty) ++ MessageM.u16 cl ++ (MessageM.u32 ttl ++ MessageM.u16 (zlen e2) ++ e2 ++ ext))
+      by (rewrite <- !app_assoc; reflexivity).
+    replace (length (file ++ e1) + 2)%nat with (length ((file ++ e1) ++ MessageM.u16 ty)) by (rewrite app_length; reflexivity).
+    rewrite rd_u16_at by (try lia; rewrite app_length; cbn [length MessageM.u16]; lia). cbn [bind].
+    replace (((file ++ e1) ++ MessageM.u16 ty) ++ MessageM.u16 cl ++ MessageM.u32 ttl ++ MessageM.u16 (zlen e2) ++ e2 ++ ext)
+      with (((file ++ e1) ++ MessageM.u16 ty ++ MessageM.u16 cl) ++ MessageM.u32 ttl ++ (MessageM.u16 (zlen e2) ++ e2 ++ ext))
+      by (rewrite <- !app_assoc; reflexivity).
+    replace (length (file ++ e1) + 4)%nat with (length ((file ++ e1) ++ MessageM.u16 ty ++ MessageM.u16 cl))
+      by (rewrite !app_length; cbn [length MessageM.u16]; lia).
+    rewrite rd_u32_at by (try lia; rewrite !app_length in *; cbn [length MessageM.u16]; lia). cbn [bind].
+    replace (((file ++ e1) ++ MessageM.u16 ty ++ MessageM.u16 cl) ++ MessageM.u32 ttl ++ MessageM.u16 (zlen e2) ++ e2 ++ ext)
+      with (((file ++ e1) ++ MessageM.u16 ty ++ MessageM.u16 cl ++ MessageM.u32 ttl) ++ MessageM.u16 (zlen e2) ++ (e2 ++ ext))
+      by (rewrite <- !app_assoc; reflexivity).
+    replace (length (file ++ e1) + 8)%nat with (length ((file ++ e1) ++ MessageM.u16 ty ++ MessageM.u16 cl ++ MessageM.u32 ttl))
+      by (rewrite !app_length; cbn [length MessageM.u16 MessageM.u32]; lia).
+    pose proof (zlen_nn e2).
+    rewrite rd_u16_at by (try lia; rewrite !app_length in *; cbn [length MessageM.u16 MessageM.u32]; lia). cbn [bind].
+    unfold zlen. reflexivity.
+  - intros acc. replace (length (file ++ e1) + 10)%nat with (length file1) by (unfold file1; rewrite !app_length; lia).
+    apply RD.
+Qed.
